@@ -51,7 +51,7 @@ CHECKS["C06"] = dict(engine="MarkdownDoc", ref="3 (C06), Appendix A.3",
     technique="TLA+ reference reading + tokenizer machine, TLC equivalence check on all documents in the bound, documents replayed into MarkdownParser::parse, TLC comparison of every result")
 
 CHECKS["C07"] = dict(engine="CramDoc", ref="3 (C07)",
-    text="specs/CramDoc.tla gives a positional reference reading CramRef (one test per two-space-indented `$` line, `>` continuations directly after it, following indented lines with exactly two spaces removed as expectations, `[n]` as exit code, nearest preceding unindented non-comment line as title, column-0 `#` lines skipped) and the line machine of src/parsers/cram.rs with the LineParser state inlined; TLC checks machine = reference for ALL line sequences of length <= 4 (thorough 5) over 12 line kinds (22621 documents) and emits them. The real CramParser parses each document (LF, CRLF, no final newline); TLC compares every result with the reference incl. the Cram defaults (combined output, CRLF kept) of every test.",
+    text="specs/CramDoc.tla gives a positional reference reading CramRef (one test per two-space-indented `$` line, `>` continuations directly after it, following indented lines with exactly two spaces removed as expectations, `[n]` as exit code, nearest preceding unindented non-comment line as title, column-0 `#` lines skipped) and the line machine of src/parsers/cram.rs with the LineParser state inlined; TLC checks machine = reference for ALL line sequences of length <= 4 (thorough 5) over 13 line kinds (30941 documents) and emits them. The real CramParser parses each document (LF, CRLF, no final newline); TLC compares every result with the reference incl. the Cram defaults (combined output, CRLF kept) of every test.",
     note="Trusted: TLC. Documents containing indented lines that belong to no command are judged only for 'never crashes' (the statement is silent about them). Titles are compared only for the first command after an unindented line.",
     technique="TLA+ positional reference + line machine, TLC equivalence over all short line sequences, replay into CramParser::parse, TLC comparison of every result")
 
